@@ -126,13 +126,15 @@ def solve_obligation(ob, budget_s, tmpdir, tag):
     t0 = time.time()
     if z3.is_true(z3.simplify(ob.goal)):
         return "unsat", "trivial", 0.0, None, None
-    r = hard_check(s, budget_s)
+    quick = min(3.0, budget_s)
+    s.set("timeout", int(quick * 1000))
+    r = hard_check(s, quick)
     dt = time.time() - t0
     if r == z3.unsat:
         return "unsat", "z3-5.1", dt, None, None
     if r == z3.sat:
         return "sat", "z3-5.1", dt, s.model(), None
-    # unknown: second solver family
+    # unknown after a short z3 attempt: second solver family, then z3 again with the full budget
     smt2 = os.path.join(tmpdir, f"{tag}.smt2")
     s2 = z3.Solver()
     s2.add(*bm.AXIOMS)
@@ -150,10 +152,22 @@ def solve_obligation(ob, budget_s, tmpdir, tag):
     first = out.splitlines()[0] if out else ""
     if first == "unsat":
         return "unsat", "cvc5-1.0.3", dt + dt2, None, smt2
+    t2 = time.time()
+    s3 = z3.Solver()
+    s3.set("timeout", int(budget_s * 1000))
+    s3.add(*bm.AXIOMS)
+    s3.add(*ob.pc)
+    s3.add(z3.Not(ob.goal))
+    r3 = hard_check(s3, budget_s)
+    dt3 = time.time() - t2
+    if r3 == z3.unsat:
+        return "unsat", "z3-5.1", dt + dt2 + dt3, None, smt2
+    if r3 == z3.sat:
+        return "sat", "z3-5.1", dt + dt2 + dt3, s3.model(), smt2
     if first == "sat":
         # a cvc5 model is not mapped back: report refuted without a counterexample
-        return "sat", "cvc5-1.0.3", dt + dt2, None, smt2
-    return "unknown", "z3-5.1+cvc5-1.0.3", dt + dt2, None, smt2
+        return "sat", "cvc5-1.0.3", dt + dt2 + dt3, None, smt2
+    return "unknown", "z3-5.1+cvc5-1.0.3", dt + dt2 + dt3, None, smt2
 
 
 def confirm_unsat(ob, budget_s, tmpdir, tag):
@@ -418,7 +432,7 @@ def main(argv=None):
 
     min_obl = meta.get("min_obligations", 1)
     guard_fail = []
-    if total < min_obl:
+    if total < min_obl and not undecided and not refuted:
         guard_fail.append(f"obligation count {total} < recorded minimum {min_obl}")
     for cr in canary_results:
         if cr["error"] and cr["error"][0] != "crash" and not cr["refuted_obligations"]:
@@ -438,6 +452,7 @@ def main(argv=None):
             lines.append(f"KNOWN-FINDING: property={prop} {f['what']}")
             known_printed.append(f["id"])
     violations = []
+    reported = set()
     for key, o in refuted:
         path, has_input = write_replay(prop, key, db.get(key), o)
         reproduced = False
@@ -449,7 +464,10 @@ def main(argv=None):
         suffix = "" if reproduced else " no-failing-input-found"
         violations.append({"function": key, "obligation": o["name"], "clause": o["clause"], "replay": str(path),
                            "reproduced": reproduced, "model": o.get("model"), "replay_out": o.get("replay_out")})
-        lines.append(f"VIOLATION property={prop} replay={path}{suffix}")
+        base = (key, o["name"].split("#")[0])
+        if base not in reported:
+            reported.add(base)
+            lines.append(f"VIOLATION property={prop} replay={path}{suffix}")
 
     wall = time.time() - t_start
     evidence = {
